@@ -57,6 +57,7 @@ def random_input(rng, kind):
 
 
 IFACES = {}
+GENS = {}
 
 
 def run_kind(kind, outdir, inp):
@@ -72,7 +73,11 @@ def run_kind(kind, outdir, inp):
             iface = kj.events_interface(_r.Random(inp["iface_seed"]), inp.get("iface_table") or inp["table"], inp["lang"], inp.get("usertags"))
             if key is not None:
                 IFACES[key] = iface
-        return generate(kind, outdir, table=[list(r) for r in inp["table"]], iface=iface, name=inp["name"], copy_other=bool(inp.get("copy_other")))
+        holder = None
+        if inp.get("reuse_gen") is not None:      # the caller also keeps the generator OBJECT (built for this output directory)
+            holder = GENS.setdefault((inp["reuse_gen"], os.path.abspath(outdir)), {})
+        return generate(kind, outdir, table=[list(r) for r in inp["table"]], iface=iface, name=inp["name"], copy_other=bool(inp.get("copy_other")),
+                        holder=holder)
     if kind == "proto":
         iface = kj.random_proto_interface(_r.Random(inp["iface_seed"]))
         return generate(kind, outdir, iface=iface, name=inp["name"], copy_other=bool(inp.get("copy_other")))
